@@ -11,7 +11,8 @@ import Gallia.Gen.C10
   * for **every** ECU (any step function, any state) with a request log (`Logs`: one entry per exchange — `logged e` —
     or one entry per transmission — the real client loop over a logging wire ECU, `client_logs`): which requests the
     scanners put on the wire, also in runs that are given up or die (`probes_only_selected`, `probes_cover`,
-    `skip_respected`, `scan_requests`, `skipped_session_not_requested`, `ident_requests_only`);
+    `skip_respected`, `scan_requests`, `skipped_session_not_requested`, `ident_requests_only`); what a skip entry with an
+    empty id list means (`empty_skip_list_skips_nothing`, `empty_skip_list_scanned_completely`);
   * for every **session-determined ECU obeying the ISO default rule** (`SessEcu`, `IsoServiceRule`; the class the
     virtual ECU of C13 belongs to): what is reported (`found_supported`, `found_complete`, `scan_sound`,
     `scan_complete`, `scan_exact`, `reset_same_result`) and what is counted (`ident_count`, `ident_scan_counts`);
@@ -269,6 +270,48 @@ theorem scan_exact {e : Ecu σ} (E : SessEcu e) (supp : Nat → Nat → Bool) (i
   refine ⟨r, h1, fun k sid => ⟨fun hmem => ?_, fun ⟨a, b', c, d, f, g⟩ => h3 k sid a b' c d f g⟩⟩
   obtain ⟨a, b', c, d, f, ss, g⟩ := scan_sound E supp iso cfg hin sessions hcfg hlt s r h1 (k, sid) hmem
   exact ⟨a, by rw [← henter ss k a]; exact g, b', c, d, f⟩
+
+/-- a skip entry with an EMPTY id list (`--skip S:`, which `unravel_2d` turns into `{S: []}`, or `{S: []}` given directly)
+    names nothing to leave out: no id is skipped in that session, the session stays in the list of sessions to scan
+    exactly when it was requested, the service scan selects every service id (response ids only when asked) and the
+    identifier scan keeps the whole requested range -/
+theorem empty_skip_list_skips_nothing (sk : Skip) (k : Nat) (hk : sk.find k = some (some [])) :
+    (∀ id, skipped sk (some k) id = false) ∧
+    (∀ sessions, k ∈ activeSessions sk sessions ↔ k ∈ sessions) ∧
+    (∀ cfg : SvcCfg, cfg.skip = sk → ∀ sid,
+      (sidSelected cfg (some k) sid = true ↔ (sid &&& 0x40 = 0 ∨ cfg.scanResponseIds = true))) ∧
+    (∀ cfg : IdCfg, cfg.skip = sk →
+      (idPairs cfg).filter (fun p => !skipped cfg.skip (some k) p.1) = idPairs cfg) := by
+  have h1 : ∀ id, skipped sk (some k) id = false := fun id => by simp [skipped, hk]
+  refine ⟨h1, fun sessions => ?_, fun cfg hc sid => ?_, fun cfg hc => ?_⟩
+  · simp [activeSessions, hk]
+  · rw [selection, hc, h1 sid]; simp
+  · rw [hc]; simp [h1]
+
+/-- ... and therefore such a session is reported completely: under the hypotheses of `scan_exact`, in a requested,
+    enterable session whose skip entry is an empty list EVERY implemented service (response ids only when asked) that
+    answers a probe meaningfully is reported -/
+theorem empty_skip_list_scanned_completely {e : Ecu σ} (E : SessEcu e) (supp : Nat → Nat → Bool)
+    (iso : IsoServiceRule E.ans supp)
+    (cfg : SvcCfg) (hin : HooksInert cfg.hooks) (hq : HooksAnswered E.ans cfg.hooks)
+    (sessions : List Nat) (hcfg : cfg.sessions = some sessions) (hlt : ∀ k ∈ sessions, k < 0x80) (s : σ)
+    (enter : Nat → Bool)
+    (henter : ∀ ss t, t ∈ activeSessions cfg.skip sessions → (E.ans ss (dscPdu t)).isPos = enter t)
+    (hrb : cfg.checkSession = true → ∀ k ∈ activeSessions cfg.skip sessions, ReadBackOk E.ans k)
+    (hstuck : ∀ ss sid l, E.ans ss (probePdu sid l) ≠ .stuck)
+    (hreset : ∀ ss l, cfg.reset = some l → E.ans ss (resetPdu l) ≠ .illegal ∧ E.ans ss (resetPdu l) ≠ .stuck)
+    (hping : ∀ ss, E.ans ss pingPdu ≠ .stuck)
+    (k : Nat) (hk : cfg.skip.find k = some (some [])) (hreq : k ∈ sessions) (hen : enter k = true) :
+    ∃ r, (serviceScan e cfg s).2 = .ok r ∧ ∀ sid, sid < 256 → (sid &&& 0x40 = 0 ∨ cfg.scanResponseIds = true) →
+      supp k sid = true → (∃ l ∈ probeLengths, (E.ans k (probePdu sid l)).meaningful = true) → (k, sid) ∈ r.result := by
+  obtain ⟨r, h1, h2⟩ := scan_exact E supp iso cfg hin hq sessions hcfg hlt s enter henter hrb hstuck hreset hping
+  obtain ⟨_, hact, hsel, _⟩ := empty_skip_list_skips_nothing cfg.skip k hk
+  exact ⟨r, h1, fun sid hs hr hsup hm =>
+    (h2 k sid).mpr ⟨(hact sessions).mpr hreq, hen, hs, (hsel cfg rfl sid).mpr hr, hsup, hm⟩⟩
+
+/-- non-vacuity: `--skip 0x01:0x22 0x03:` = `{1: [0x22], 3: []}` has such an entry for session 3 (and none for 1, 2) -/
+example : Skip.find [(1, some [0x22]), (3, some [])] 3 = some (some []) := by decide
+example : activeSessions [(1, some [0x22]), (3, some []), (4, none)] [1, 2, 3, 4] = [1, 2, 3] := by decide
 
 /-- `--reset` never changes the reported set: for an ECU as in `scan_exact` the scan with `--reset <level>` and the
     scan without report the same (session, service) pairs, wherever the reset leaves the ECU -/
